@@ -58,9 +58,36 @@ def uri_text_doc(rng):
             '<generator url="http://example.org/gen03" uri="http://example.org/gen10" version="1">G</generator><updated>2005-01-01T00:00:00Z</updated>%s</feed>' % (t(), t(), t(), entries)).encode("utf-8"), "uri-text/atom"
 
 
+MOJIBAKE = ["CafÃ© — MÃ¼nchen", "CafÃ© MÃ¼nchen", "naÃ¯ve – rÃ©sumÃ©", "plain then Ã¤ and “quotes”", "Ã©Ã¨Ãª", "… Ã¶ …", "MÃ¼nchen"]
+
+
+def mojibake_doc(rng):
+    """texts that contain UTF-8 read as ISO-8859-1 ("mojibake"), alone and next to characters outside ISO-8859-1: pop() repairs such text as a WHOLE (or not at all) --
+    where the tokenizer cuts the character data (references, CDATA edges, comments) must not matter"""
+    t = lambda: feedgen.esc(rng.choice(MOJIBAKE))
+    items = "".join("<item><title>%s</title><description>%s</description><dc:creator>%s</dc:creator><category>%s</category></item>" % (t(), t(), t(), t()) for _ in range(rng.randint(1, 3)))
+    return ('<rss version="2.0" xmlns:dc="http://purl.org/dc/elements/1.1/"><channel><title>%s</title><copyright>%s</copyright>%s</channel></rss>' % (t(), t(), items)).encode("utf-8"), "mojibake"
+
+
+INLINE_NS = ['<svg:svg width="10" height="10"><svg:circle cx="5" cy="5" r="4"/><svg:title>c</svg:title></svg:svg>', "<m:math><m:mi>x</m:mi><m:mo>+</m:mo><m:mn>1</m:mn></m:math>",
+             '<p>before</p><svg:svg viewBox="0 0 1 1"><svg:g><svg:rect width="1" height="1"/></svg:g></svg:svg><p>after</p>', "<p>a <m:math><m:mfrac><m:mn>1</m:mn><m:mn>2</m:mn></m:mfrac></m:math> b</p>"]
+
+
+def inline_ns_doc(rng):
+    """inline XHTML that embeds SVG / MathML under namespace PREFIXES (declared on the feed element): the prefix renaming variants include upper-case spellings"""
+    b1, b2 = rng.choice(INLINE_NS), rng.choice(INLINE_NS)
+    return ('<feed xmlns="http://www.w3.org/2005/Atom" xmlns:svg="http://www.w3.org/2000/svg" xmlns:m="http://www.w3.org/1998/Math/MathML"><title>t</title><id>i</id><updated>2005-01-01T00:00:00Z</updated>'
+            '<entry><title>e</title><id>j</id><content type="xhtml"><div xmlns="http://www.w3.org/1999/xhtml">%s</div></content>'
+            '<summary type="xhtml"><div xmlns="http://www.w3.org/1999/xhtml">%s</div></summary></entry></feed>' % (b1, b2)).encode("utf-8"), "atom-inline-ns"
+
+
 def gen_doc0(rng):
     if rng.random() < 0.12:
         return uri_text_doc(rng)
+    if rng.random() < 0.08:
+        return mojibake_doc(rng)
+    if rng.random() < 0.08:
+        return inline_ns_doc(rng)
     r = rng.random()
     if r < 0.35:
         af = feedgen.abstract_feed(rng, special=True)
@@ -122,7 +149,7 @@ def rename_expected(res, mapping_unknown):
     return out
 
 
-FRESH = ["p0", "q1x", "zz", "nsa", "my-ns", "a.b", "Pfx", "x_y"]
+FRESH = ["p0", "q1x", "zz", "nsa", "my-ns", "a.b", "Pfx", "x_y", "SVG", "Mml", "X1"]
 
 
 def make_variant(rng, toks, kinds):
